@@ -135,13 +135,20 @@ namespace Dune
     if( k < 0 || k > n )
       return 0;
 
-    if (2*k > n)
+    if (k > n-k)
       return binomial(n, n-k);
 
+    // bin runs through the binomial coefficients C(n-k+i, i), i = 0,...,k: every division is
+    // exact and no intermediate value exceeds the result
     T bin = 1;
-    for(auto i = n-k; i < n; ++i)
-      bin *= i+1;
-    return bin / factorial(k);
+    for(T i = 1; i <= k; ++i)
+    {
+      // g = gcd(bin, i) by Euclid's algorithm (works for every integer-like T)
+      T g = bin, r = i;
+      while(r != 0) { const T t = g % r; g = r; r = t; }
+      bin = (bin/g) * ((n-k+i)/(i/g));
+    }
+    return bin;
   }
 
   //! calculate the binomial coefficient n over k as a constexpr
